@@ -1,10 +1,23 @@
+\* the configuration tools/check_hub2.py writes for stage M (quick tier); it rewrites this file in its scratch copy
 SPECIFICATION Spec
 CONSTANTS MaxC = 3
- MaxDisturb = 1
- AtomicReg = FALSE
- FixStale = FALSE
+ MaxDisturb = 2
+ AtomicReg = TRUE
+ FixStale = TRUE
+ FixIntent = TRUE
+ FixShut = TRUE
+ FixCancel = TRUE
+ CancelSplit = FALSE
+ FixCancelOrder = FALSE
+ Rich = TRUE
+ Rich2 = TRUE
+ Warm = FALSE
+ IdWrong = {}
  EmitMode = "none"
  SimDepth = 0
 INVARIANT P_C05
 INVARIANT NoOrphan
+INVARIANT P_C10_trust
+INVARIANT P_C10_shut
+INVARIANT P_C09_pin
 CHECK_DEADLOCK FALSE
